@@ -4631,7 +4631,8 @@ func (n *FlowSpecNLRI) decodeFromBytes(data []byte, options ...*MarshallingOptio
 	}
 	var length int
 	if data[0]>>4 == 0xf && len(data) > 2 {
-		length = int(binary.BigEndian.Uint16(data[:2]))
+		// extended length: the upper nibble 0xf is a marker, not part of the length
+		length = int(binary.BigEndian.Uint16(data[:2]) & 0x0fff)
 		data = data[2:]
 	} else if len(data) > 1 {
 		length = int(data[0])
@@ -4744,16 +4745,16 @@ func (n *FlowSpecNLRI) Serialize(options ...*MarshallingOption) ([]byte, error) 
 		}
 		buf = append(buf, b...)
 	}
-	length := n.Len(options...)
+	// RFC 8955 4.1: a length below 240 takes one octet, otherwise two octets
+	// 0xfnnn of which the lower 12 bits are the length.
+	length := len(buf)
 	if length > 0xfff {
 		return nil, fmt.Errorf("too large: %d", length)
 	} else if length < 0xf0 {
-		length -= 1
 		buf = append([]byte{byte(length)}, buf...)
 	} else {
-		length -= 2
 		b := make([]byte, 2)
-		binary.BigEndian.PutUint16(buf, uint16(length))
+		binary.BigEndian.PutUint16(b, 0xf000|uint16(length))
 		buf = append(b, buf...)
 	}
 	return buf, nil
